@@ -15,7 +15,12 @@ class CallMixin:
     def expr_Lambda(self, st, n):
         return [(st, VFunc("lambda", (n, st.env)))]
 
+    _MUTATORS = ("add", "append", "extend", "update", "difference_update", "discard", "remove")
+
     def expr_Call(self, st, n):
+        if (isinstance(n.func, ast.Attribute) and n.func.attr in self._MUTATORS
+                and isinstance(n.func.value, ast.Subscript)):
+            return self.write_through(st, n)
         out = []
         for s, f in self.eval(st, n.func):
             if isinstance(f, Exc):
@@ -35,6 +40,47 @@ class CallMixin:
                         raise Unsupported("**kwargs at call site")
                     kw[k.arg] = v
                 out.extend(self.call(s2, f, pos, kw, n, star))
+        return out
+
+    def write_through(self, st, n):
+        """`c[k].add(x)` and friends: the nested container is a value inside c;
+        the mutation is applied to a temporary cell and stored back into c[k]."""
+        sub = n.func.value
+        out = []
+        for s, c in self.eval(st, sub.value):
+            if isinstance(c, Exc):
+                out.append((s, c))
+                continue
+            for s2, k in self.eval_index(s, sub.slice):
+                if isinstance(k, Exc):
+                    out.append((s2, k))
+                    continue
+                for s3, inner in self.get_item(s2, c, k, sub):
+                    if isinstance(inner, Exc):
+                        out.append((s3, inner))
+                        continue
+                    if isinstance(inner, VObj):
+                        # a real object/cell stored in a concrete-shape container: ordinary call
+                        for s4, vals in self.eval_all(s3, list(n.args)):
+                            if isinstance(vals, Exc):
+                                out.append((s4, vals))
+                            else:
+                                out.extend(self.call_method(s4, inner, n.func.attr, vals, {}, n))
+                        continue
+                    if not ops.is_cell(s3, c):
+                        raise Unsupported(f"mutation through a borrowed container at line {self.line(n)}")
+                    tmp = s3.alloc(HeapObj("cell", val=inner))
+                    for s4, vals in self.eval_all(s3, list(n.args)):
+                        if isinstance(vals, Exc):
+                            out.append((s4, vals))
+                            continue
+                        for s5, r in self.call_method(s4, tmp, n.func.attr, vals, {}, n):
+                            if isinstance(r, Exc):
+                                out.append((s5, r))
+                                continue
+                            newinner = s5.heap.pop(tmp.oid).val
+                            for s6, oc in self.set_item(s5, c, k, newinner, sub):
+                                out.append((s6, r if isinstance(oc, Normal) else oc.exc))
         return out
 
     def call(self, st, f, pos, kw, node, star=None):
@@ -76,6 +122,14 @@ class CallMixin:
             return [(st, r)]
         if f.what == "class":
             return self.construct(st, f.payload, pos, kw, node)
+        if f.what == "amethod":
+            kind, meth = f.payload
+            spec = kind.methods[meth]
+            if isinstance(spec, tuple) and spec[0] == "pure":
+                if pos or kw:
+                    return [(st, Exc("TypeError", self.line(node), f"{meth}() takes no arguments"))]
+                return [(st, spec[1].wrap(kind.method_fn(meth)(f.self_val.t)))]
+            return spec(self, st, f.self_val, pos, kw, node)
         if f.what == "bound":
             return self.call_method(st, f.self_val, f.payload, pos, kw, node, star)
         if f.what in ("module", "builtin"):
@@ -377,8 +431,7 @@ class CallMixin:
                     raise Unsupported(f"append of {xv!r} to a symbolic sequence")
                 base = v.to(xv.kind) if isinstance(v, VEmptySeq) else v
                 xv = ops.coerce(st, xv, base.elem)
-                items = base.items + [xv] if base.items is not None else None
-                setcell(st, VSeq(base.elem, z3.Concat(base.t, z3.Unit(xv.t)), items=items))
+                setcell(st, base.append(xv))
                 return [(st, VNone())]
             if meth == "extend":
                 o = ops.deref(st, pos[0])
@@ -394,8 +447,7 @@ class CallMixin:
                     setcell(st, VTuple(list(base_items) + list(ov)))
                     return [(st, VNone())]
                 base = v.to(o.elem) if isinstance(v, VEmptySeq) else v
-                items = base.items + o.items if base.items is not None and o.items is not None else None
-                setcell(st, VSeq(base.elem, z3.Concat(base.t, o.t), items=items))
+                setcell(st, base.concat(o))
                 return [(st, VNone())]
             if meth == "copy":
                 return [(st, st.alloc(HeapObj("cell", val=v)))]
@@ -413,7 +465,7 @@ class CallMixin:
                 t, f = self.split(st, n > 0)
                 if t:
                     vv = ops.deref(t, recv)
-                    t.heap[cell.oid].val = VSeq(v.elem, z3.SubSeq(vv.t, 0, n - 1))
+                    t.heap[cell.oid].val = vv.sub(z3.IntVal(0), n - 1)
                     outs.append((t, v.at(n - 1)))
                 if f:
                     outs.append((f, Exc("IndexError", line)))
